@@ -1281,9 +1281,9 @@ def run(ctx: vf.Ctx):
     run_batch(ctx, corpus, mode, 'corpus')
     ctx.count('corpus', len(corpus))
 
-    gen = [gen_history(rng, rng.randint(4, 30)) for _ in range(ctx.n(2500, 25000))]
-    gen_safe = [gen_history(rng, rng.randint(8, 30), avoid_d4=True) for _ in range(ctx.n(2500, 25000))]
-    gen_bad = [gen_history(rng, rng.randint(4, 20), malformed=True) for _ in range(ctx.n(800, 8000))]
+    gen = [gen_history(rng, rng.randint(4, 30)) for _ in range(ctx.n(2500, 40000))]
+    gen_safe = [gen_history(rng, rng.randint(8, 30), avoid_d4=True) for _ in range(ctx.n(2500, 40000))]
+    gen_bad = [gen_history(rng, rng.randint(4, 20), malformed=True) for _ in range(ctx.n(800, 12000))]
     ctx.count('random', len(gen))
     ctx.count('random_d4_avoiding', len(gen_safe))
     ctx.count('malformed', len(gen_bad))
